@@ -252,6 +252,10 @@ func (cl *compiler) compileForStmt(stmt *ast.ForStmt) {
 }
 
 func (cl *compiler) compileIfStmt(stmt *ast.IfStmt) {
+	if stmt.Init != nil {
+		cl.compileStmt(stmt.Init)
+	}
+
 	if stmt.Else == nil {
 		labelEnd := cl.newLabel()
 		cl.compileExpr(stmt.Cond)
